@@ -1,6 +1,11 @@
 package main
 
-import "path/filepath"
+import (
+	"fmt"
+	"path/filepath"
+
+	"golang.org/x/tools/go/ssa"
+)
 
 // fixtureOverlay adds a virtual package (nothing is written under /repo) that
 // holds the good and bad shapes the engines must tell apart on every run.
@@ -12,16 +17,516 @@ func fixtureOverlay(repo string) map[string][]byte {
 
 const controlsPkg = "internal/zzverifcontrols"
 
+// Every engine gets at least one shape it must accept ("Good") and one it
+// must reject ("Bad"). A control that gives the wrong answer is an ERROR
+// (exit 2): the engine, not the repository, is broken, and no verdict of the
+// run is to be believed.
 const controlsSrc = `package zzverifcontrols
 
-func Hello() int { return 1 }
+import (
+	"errors"
+	"sync"
+)
+
+var errX = errors.New("x")
+
+//go:noinline
+func cond() bool { return len(errX.Error()) > 3 }
+
+// ---- E1 cut: guard / must-pass-through --------------------------------
+func sink(x *int) int { return *x }
+
+func GuardGood(x *int) int {
+	if x == nil {
+		return 0
+	}
+	return sink(x)
+}
+
+func GuardBad(x *int) int {
+	if x == nil {
+		_ = cond()
+	}
+	return sink(x)
+}
+
+func step() {}
+
+func MustPassGood(ok bool) int {
+	if ok {
+		step()
+		return 1
+	}
+	step()
+	return 2
+}
+
+func MustPassBad(ok bool) int {
+	if ok {
+		step()
+		return 1
+	}
+	return 2
+}
+
+// E1b: boolean-consistent pruning
+func AssumeGood(closed bool, x *int) int {
+	if closed {
+		return 0
+	}
+	n := 1
+	if !closed {
+		n = sink(x) // reached only with closed == false
+	}
+	return n
+}
+
+// ---- E3 who-may-write ---------------------------------------------------
+type Box struct {
+	mu sync.Mutex
+	v  int
+	w  int
+}
+
+func (b *Box) WriterAllowed() {
+	b.mu.Lock()
+	b.v = 1
+	b.mu.Unlock()
+}
+
+func (b *Box) WriterForbidden() {
+	b.mu.Lock()
+	b.v = 2
+	b.mu.Unlock()
+}
+
+// ---- E4 lock -------------------------------------------------------------
+type LBox struct {
+	mu sync.Mutex
+	v  int
+}
+
+func (b *LBox) LockGood() int {
+	b.mu.Lock()
+	defer b.mu.Unlock()
+	return b.v
+}
+
+func (b *LBox) helperNeedsLock() int { return b.v }
+
+func (b *LBox) LockGoodViaHelper() int {
+	b.mu.Lock()
+	n := b.helperNeedsLock()
+	b.mu.Unlock()
+	return n
+}
+
+type LBad struct {
+	mu sync.Mutex
+	v  int
+}
+
+func (b *LBad) LockBad() int {
+	b.mu.Lock()
+	b.mu.Unlock()
+	return b.v
+}
+
+// ---- E2 ownership -------------------------------------------------------
+type Res struct{ n int }
+
+func (r *Res) Close() {}
+
+//go:noinline
+func Open() (*Res, error) {
+	if cond() {
+		return nil, errX
+	}
+	return &Res{}, nil
+}
+
+var keep []*Res
+
+func OwnGood() error {
+	r, err := Open()
+	if err != nil {
+		return err
+	}
+	if cond() {
+		r.Close()
+		return errX
+	}
+	keep = append(keep, r)
+	return nil
+}
+
+func OwnBad() error {
+	r, err := Open()
+	if err != nil {
+		return err
+	}
+	if cond() {
+		return errX // leaked
+	}
+	keep = append(keep, r)
+	return nil
+}
+
+// ---- E7b order tables -----------------------------------------------------
+func OrdGood(a, b int) bool { return !(a < b) }
+
+func OrdGood2(a, b int) bool {
+	if b > a {
+		return false
+	}
+	return true
+}
+
+func OrdBad(a, b int) bool { return a > b }
+
+// ---- E7c bounds ---------------------------------------------------------------
+//go:noinline
+func use(s []int) int { return len(s) }
+
+func BoundGood(s []int) int {
+	if len(s) > 4 {
+		s = s[:4]
+	}
+	return use(s)
+}
+
+func BoundGood2(s []int) int {
+	return use(s[:min(len(s), 4)])
+}
+
+func BoundBad(s []int) int {
+	if len(s) > 5 {
+		s = s[:5]
+	}
+	return use(s)
+}
+
+func DiffGood(data []int) int {
+	n := 0
+	for w := 0; w < len(data); {
+		end := min(w+4, len(data))
+		n += use(data[w:end])
+		w = end
+	}
+	return n
+}
+
+func DiffBad(data []int) int {
+	n := 0
+	for w := 0; w < len(data); {
+		end := len(data)
+		if end-w > 5 {
+			end = w + 4
+		}
+		n += use(data[w:end])
+		w = end
+	}
+	return n
+}
+
+// ---- E8 affine accounting --------------------------------------------------
+type Acc struct {
+	total int
+	items map[string]int
+}
+
+func (a *Acc) SetGood(k string, v int) {
+	a.total += v - a.items[k]
+	a.items[k] = v
+}
+
+func (a *Acc) DelGood(k string) {
+	old := a.items[k]
+	delete(a.items, k)
+	a.total = a.total - old
+}
+
+func (a *Acc) SetBad(k string, v int) {
+	a.total += v
+	a.items[k] = v
+}
+
+func (a *Acc) DelBad(k string, really bool) {
+	if really {
+		a.total -= a.items[k]
+	}
+	delete(a.items, k)
+}
+
+// ---- E9 path event counting ---------------------------------------------------
+func OnceGood(ch chan int, v int, fast bool) {
+	if fast {
+		select {
+		case ch <- v:
+			return
+		default:
+		}
+	}
+	ch <- v
+}
+
+func OnceBad(ch chan int, v int, fast bool) {
+	if fast {
+		select {
+		case ch <- v:
+		default:
+		}
+	}
+	ch <- v
+}
+
+func OnceBadDrop(ch chan int, v int) {
+	select {
+	case ch <- v:
+	default:
+	}
+}
+
+// ---- pattern: element-skipping swap delete ------------------------------------------
+func SwapBad(s []int, x int) []int {
+	n := len(s)
+	for i, v := range s {
+		if v == x {
+			n--
+			s[i] = s[n]
+		}
+	}
+	return s[:n]
+}
+
+func SwapGood(s []int, x int) []int {
+	n := 0
+	for _, v := range s {
+		if v != x {
+			s[n] = v
+			n++
+		}
+	}
+	return s[:n]
+}
 `
 
 func runControls(c *Ctx, rep *Report) {
-	ru := rep.Rule(rep.Prop+"-CTRL", "controls", 1, "positive/negative controls of the engines on the fixture package (virtual, via overlay)")
+	ru := rep.Rule(rep.Prop+"-CTRL", "controls", 20, "positive/negative controls of the engines on the fixture package (virtual, via overlay): every engine must accept its Good shapes and reject its Bad ones on this very run")
 	if c.Pkg(controlsPkg) == nil {
 		ru.Err("fixture", "fixture package not loaded")
 		return
 	}
-	ru.OK("fixture-loaded", 0, 1, "")
+	fn := func(name string) *ssa.Function {
+		f := c.Fn(controlsPkg + "." + name)
+		if f == nil {
+			f = c.Fn("(*" + controlsPkg + "." + name)
+		}
+		return f
+	}
+	// scratch rule: engine verdicts land here, not in the property's report
+	scratch := func() *Rule {
+		sr := &Report{Prop: "CTRL", ctx: c}
+		return sr.Rule("CTRL-X", "", 0, "")
+	}
+	nviol := func(r *Rule) int {
+		n := 0
+		for _, o := range r.Obls {
+			if o.Verdict == VViolation {
+				n++
+			}
+		}
+		return n
+	}
+	expect := func(name string, wantViolation bool, got bool) {
+		if wantViolation == got {
+			what := "accepted"
+			if got {
+				what = "rejected"
+			}
+			ru.OK("control "+name, 0, 1, what+" as expected")
+		} else {
+			ru.Err("control "+name, fmt.Sprintf("engine self-test failed: expected violation=%v, got %v", wantViolation, got))
+		}
+	}
+	isSink := callPred(controlsPkg + ".sink")
+	isStep := callPred(controlsPkg + ".step")
+	isRet := func(in ssa.Instruction) bool { _, ok := in.(*ssa.Return); return ok }
+
+	// E1
+	for _, x := range []struct {
+		n   string
+		bad bool
+	}{{"GuardGood", false}, {"GuardBad", true}} {
+		f := fn(x.n)
+		if f == nil {
+			ru.Err("control "+x.n, "fixture function missing")
+			continue
+		}
+		w, _ := (&Cut{Fn: f, Target: isSink, EdgeCut: edgeNil(func(v ssa.Value) bool { return isParamVar(c, v, "x") }, false)}).Run(c)
+		expect("E1 guard "+x.n, x.bad, w != "")
+	}
+	for _, x := range []struct {
+		n   string
+		bad bool
+	}{{"MustPassGood", false}, {"MustPassBad", true}} {
+		f := fn(x.n)
+		if f == nil {
+			ru.Err("control "+x.n, "fixture function missing")
+			continue
+		}
+		w, _ := (&Cut{Fn: f, Target: isRet, Sep: isStep}).Run(c)
+		expect("E1 must-pass "+x.n, x.bad, w != "")
+	}
+	if f := fn("AssumeGood"); f != nil {
+		p := param(f, "closed")
+		w1, _ := (&Cut{Fn: f, Target: isSink, Assume: map[ssa.Value]bool{p: true}}).Run(c)
+		w2, _ := (&Cut{Fn: f, Target: isSink, Assume: map[ssa.Value]bool{p: false}}).Run(c)
+		expect("E1b assume closed=true prunes the sink", false, w1 != "")
+		expect("E1b assume closed=false reaches the sink", true, w2 != "")
+	} else {
+		ru.Err("control AssumeGood", "fixture function missing")
+	}
+	// E3
+	{
+		sr := scratch()
+		sr.onlyIn("write Box.v", fieldWritePred(controlsPkg+".Box.v"), c.FnsOfPkg(controlsPkg), "(*"+controlsPkg+".Box).WriterAllowed")
+		bad := 0
+		okc := 0
+		for _, o := range sr.Obls {
+			if o.Verdict == VViolation {
+				bad++
+			} else {
+				okc++
+			}
+		}
+		expect("E3 who-may-write: forbidden writer reported, allowed writer accepted", false, !(bad == 1 && okc == 1))
+	}
+	// E4
+	{
+		sr := scratch()
+		lockRule(c, sr, lockSpec{Pkg: controlsPkg, Type: "LBox", Mutex: "mu", Guarded: []string{"v"}})
+		expect("E4 lock: access under lock, helper called under lock", false, nviol(sr) > 0 || len(sr.Obls) < 2)
+		sr = scratch()
+		lockRule(c, sr, lockSpec{Pkg: controlsPkg, Type: "LBad", Mutex: "mu", Guarded: []string{"v"}})
+		expect("E4 lock: access after unlock", true, nviol(sr) > 0)
+	}
+	// E2
+	{
+		own := newOwn(c, ownSpec{what: "resource", relNames: []string{"Close"}})
+		sr := scratch()
+		own.checkAcquireErrorExits(sr, controlsPkg+".OwnGood", []string{controlsPkg + ".Open"}, 0, false)
+		expect("E2 own: released on the error exit", false, nviol(sr) > 0 || len(sr.Obls) == 0)
+		sr = scratch()
+		own.reset()
+		own.checkAcquireErrorExits(sr, controlsPkg+".OwnBad", []string{controlsPkg + ".Open"}, 0, false)
+		expect("E2 own: leaked on an error exit", true, nviol(sr) > 0)
+	}
+	// E7b
+	for _, x := range []struct {
+		n   string
+		bad bool
+	}{{"OrdGood", false}, {"OrdGood2", false}, {"OrdBad", true}} {
+		f := fn(x.n)
+		if f == nil {
+			ru.Err("control "+x.n, "fixture function missing")
+			continue
+		}
+		tab, ok := orderTable(f, func(v ssa.Value) bool { return isParamVar(c, v, "a") }, func(v ssa.Value) bool { return isParamVar(c, v, "b") }, 0)
+		expect("E7b order table (a >= b) "+x.n, x.bad, !(ok && tab == [3]int{1, 2, 2}))
+	}
+	// E7c
+	for _, x := range []struct {
+		n   string
+		bad bool
+	}{{"BoundGood", false}, {"BoundGood2", false}, {"BoundBad", true}} {
+		f := fn(x.n)
+		if f == nil {
+			ru.Err("control "+x.n, "fixture function missing")
+			continue
+		}
+		calls := callsIn(f, controlsPkg+".use")
+		if len(calls) != 1 {
+			ru.Err("control "+x.n, "use() call missing")
+			continue
+		}
+		w, _ := sliceBoundedAt(c, f, calls[0].(ssa.Instruction), callArgs(calls[0])[0], 4)
+		expect("E7c slice bound <= 4 "+x.n, x.bad, w != "")
+	}
+	for _, x := range []struct {
+		n   string
+		bad bool
+	}{{"DiffGood", false}, {"DiffBad", true}} {
+		f := fn(x.n)
+		if f == nil {
+			ru.Err("control "+x.n, "fixture function missing")
+			continue
+		}
+		calls := callsIn(f, controlsPkg+".use")
+		if len(calls) != 1 {
+			ru.Err("control "+x.n, "use() call missing")
+			continue
+		}
+		sl, ok := strip2(callArgs(calls[0])[0]).(*ssa.Slice)
+		if !ok {
+			ru.Err("control "+x.n, "slice argument missing")
+			continue
+		}
+		w, _ := diffBoundedAt(c, f, calls[0].(ssa.Instruction), sl.High, sl.Low, 4)
+		expect("E7c difference bound end-w <= 4 "+x.n, x.bad, w != "")
+	}
+	// E8
+	spec := acctSpec{Account: controlsPkg + ".Acc.total", IntMaps: []string{controlsPkg + ".Acc.items"}}
+	for _, x := range []struct {
+		n   string
+		bad bool
+	}{{"Acc).SetGood", false}, {"Acc).DelGood", false}, {"Acc).SetBad", true}, {"Acc).DelBad", true}} {
+		f := c.Fn("(*" + controlsPkg + "." + x.n)
+		if f == nil {
+			ru.Err("control "+x.n, "fixture function missing")
+			continue
+		}
+		res := acctCheck(c, f, spec)
+		expect("E8 accounting "+x.n, x.bad, len(res.failures) > 0 || res.overflow || res.events == 0)
+	}
+	// E9
+	for _, x := range []struct {
+		n   string
+		bad bool
+	}{{"OnceGood", false}, {"OnceBad", true}, {"OnceBadDrop", true}} {
+		f := fn(x.n)
+		if f == nil {
+			ru.Err("control "+x.n, "fixture function missing")
+			continue
+		}
+		isCh := func(v ssa.Value) bool { return isParamVar(c, v, "ch") }
+		isV := func(v ssa.Value) bool { return isParamVar(c, v, "v") }
+		res := (&pathEnum{Fn: f,
+			Instr: func(in ssa.Instruction) int {
+				if s, ok := in.(*ssa.Send); ok && isCh(s.Chan) && isV(s.X) {
+					return 1
+				}
+				return 0
+			},
+			Edge: func(b *ssa.BasicBlock, s int) int {
+				if selectSendEdge(b, s, isCh, isV) {
+					return 1
+				}
+				return 0
+			},
+			Maybe: func(in ssa.Instruction) bool { return selectSendUntested(in, isCh, isV) }}).Run()
+		expect("E9 exactly one send "+x.n, x.bad, !res.only(1))
+	}
+	// pattern
+	for _, x := range []struct {
+		n   string
+		bad bool
+	}{{"SwapGood", false}, {"SwapBad", true}} {
+		f := fn(x.n)
+		if f == nil {
+			ru.Err("control "+x.n, "fixture function missing")
+			continue
+		}
+		expect("pattern swap-delete "+x.n, x.bad, len(swapDeleteSkips(c, f)) > 0)
+	}
 }
